@@ -322,7 +322,7 @@ pub fn shapes(neighbours: bool) -> Vec<Universe> {
 /// been skipped, offered or started.  One universe per graph: a chain step can change inputs and
 /// delete outputs but not the graph.
 pub fn late_gadget(free: usize, x_edges: bool) -> Vec<Universe> {
-    late_gadget_opts(free, x_edges, true, None)
+    late_gadget_full(free, x_edges, true, None, free <= 2)
 }
 
 /// `below_e0_only`: keep only graphs in which every free slot hangs below e0; `kinds`: restrict the
@@ -330,6 +330,12 @@ pub fn late_gadget(free: usize, x_edges: bool) -> Vec<Universe> {
 /// x only: paths of different length from x to a job that e0 feeds as well (a failure of x travels
 /// along them wave by wave while e0's reconsideration of the same job is already queued).
 pub fn late_gadget_opts(free: usize, x_edges: bool, below_e0_only: bool, kinds: Option<Vec<Kind>>) -> Vec<Universe> {
+    late_gadget_full(free, x_edges, below_e0_only, kinds, false)
+}
+
+/// `n_edges`: n (the late-invalidated consumer itself) may feed the slots as well: a failure of e0 then
+/// reaches a slot twice, along paths of different length
+pub fn late_gadget_full(free: usize, x_edges: bool, below_e0_only: bool, kinds: Option<Vec<Kind>>, n_edges: bool) -> Vec<Universe> {
     let names = ["s", "t", "v", "w"];
     let mut out = Vec::new();
     for ks in kind_vectors(free) {
@@ -344,6 +350,9 @@ pub fn late_gadget_opts(free: usize, x_edges: bool, below_e0_only: bool, kinds: 
             cand.push((2, 3 + i));
             if x_edges {
                 cand.push((0, 3 + i));
+            }
+            if n_edges {
+                cand.push((1, 3 + i));
             }
             for j in (i + 1)..free {
                 cand.push((3 + i, 3 + j));
@@ -383,7 +392,7 @@ pub fn late_gadget_opts(free: usize, x_edges: bool, below_e0_only: bool, kinds: 
             }
             let g = Graph { jobs, edges };
             out.push(Universe {
-                label: format!("late{}{}{}:{}:{:b}", free, if x_edges { "x" } else { "" }, if below_e0_only { "" } else { "u" }, kind_label(&ks), es),
+                label: format!("late{}{}{}{}:{}:{:b}", free, if x_edges { "x" } else { "" }, if below_e0_only { "" } else { "u" }, if n_edges { "n" } else { "" }, kind_label(&ks), es),
                 graphs: vec![g],
             });
         }
@@ -415,6 +424,17 @@ pub fn big_shapes() -> Vec<Universe> {
             &[("e0", "e"), ("e", "d1"), ("x", "d1"), ("e", "o"), ("o", "d2")],
             false,
         ),
+        // a late failure racing along a short and a long path to the same job (declaration order of the
+        // nodes and edges as in the independent demonstration of seeded change C07-B-r3)
+        Universe {
+            label: "wave-race-8".into(),
+            graphs: vec![{
+                let jobs: Vec<JobDef> = [("r", A), ("e0", E), ("dx", O), ("d", O), ("m", O), ("u", O), ("e1", E), ("d2", O)].iter().map(|(i, k)| JobDef::new(i, *k)).collect();
+                let e = |u: usize, d: usize| Edge { up: u, down: d, read: true, parts: vec![] };
+                // dx<-r, dx<-e0, d<-e0, m<-e0, d<-dx, u<-m, e1<-u, d<-e1, d2<-e1
+                Graph { jobs, edges: vec![e(0, 2), e(1, 2), e(1, 3), e(1, 4), e(2, 3), e(4, 5), e(5, 6), e(6, 3), e(6, 7)] }
+            }],
+        },
         // a late-required Ephemeral feeding two gadgets
         shape(
             "late-fan-7",
@@ -614,4 +634,64 @@ pub fn slots_kindswap(n: usize) -> Vec<Universe> {
         label: format!("kindswap{}", n),
         graphs,
     }]
+}
+
+/// the late-requirement gadget with four free slots in a row (`s -> t -> v -> w`, every subset of these
+/// three edges), Output / Ephemeral kinds only, every subset of the edges e0 -> slot: a failure of the
+/// late-required e0 reaches the end of the row along paths of different length (signal waves)
+pub fn late4_row() -> Vec<Universe> {
+    let names = ["s", "t", "v", "w"];
+    let mut out = Vec::new();
+    for kv in 0..32usize {
+        // bit 4: e0's edges are declared from the end of the row backwards (signal order follows declaration order)
+        let rev = kv & 16 != 0;
+        for es in 0..(1usize << 7) {
+            let mut jobs = vec![JobDef::new("x", Kind::A), JobDef::new("n", Kind::O), JobDef::new("e0", Kind::E)];
+            for i in 0..4 {
+                jobs.push(JobDef::new(names[i], if kv & (1 << i) != 0 { Kind::E } else { Kind::O }));
+            }
+            let mut edges = vec![
+                Edge { up: 0, down: 1, read: true, parts: vec![] },
+                Edge { up: 2, down: 1, read: true, parts: vec![] },
+            ];
+            let mut below = [false; 4];
+            let order: Vec<usize> = if rev { vec![3, 2, 1, 0] } else { vec![0, 1, 2, 3] };
+            for i in order {
+                if es & (1 << i) != 0 {
+                    edges.push(Edge { up: 2, down: 3 + i, read: true, parts: vec![] });
+                    below[i] = true;
+                }
+            }
+            for i in 0..3 {
+                if es & (1 << (4 + i)) != 0 {
+                    edges.push(Edge { up: 3 + i, down: 4 + i, read: true, parts: vec![] });
+                    if below[i] {
+                        below[i + 1] = true;
+                    }
+                }
+            }
+            if !below.iter().all(|b| *b) {
+                continue;
+            }
+            out.push(Universe {
+                label: format!("late4row:{:05b}:{:07b}", kv, es),
+                graphs: vec![Graph { jobs: jobs.clone(), edges: edges.clone() }],
+            });
+            // the same with one edge n -> slot (a second, longer or shorter path for the failure)
+            for i in 0..4 {
+                let mut e2 = edges.clone();
+                e2.push(Edge { up: 1, down: 3 + i, read: true, parts: vec![] });
+                out.push(Universe {
+                    label: format!("late4row:{:05b}:{:07b}:n->{}", kv, es, names[i]),
+                    graphs: vec![Graph { jobs: jobs.clone(), edges: e2 }],
+                });
+            }
+        }
+    }
+    out
+}
+
+/// the unfiltered 6-job late family with n -> slot edges, Output / Ephemeral slots (thorough)
+pub fn late3xun_oe() -> Vec<Universe> {
+    late_gadget_full(3, true, false, None, true).into_iter().filter(|u| !u.label.split(':').nth(1).unwrap_or("").contains('A')).collect()
 }
